@@ -731,6 +731,11 @@ def _parts(v, acc, depth=0):
     return acc
 
 
+def _sentinels():
+    from traits.trait_base import Undefined, Uninitialized
+    return Undefined, Uninitialized
+
+
 def refgrid_values():
     """Lattice values plus containers whose items are MORTAL objects that validation replaces (conversion inside a
     Tuple / List / Dict / Set is where a reference to the original item is taken and must be given back)."""
@@ -747,6 +752,8 @@ def refgrid_values():
         "{'s'*9}": lambda: {"s" * 9}, "(1000003, 1000003)": lambda: (1000003, 1000007), "('yes'*1, 5)": lambda: ("ye" + "s", 5),
         "1000003.5": lambda: 1000003.5, "'ye'": lambda: "".join(["y", "e"]), "Idx(1)": lambda: L.Idx(1), "Flt(0.5)": lambda: L.Flt(0.5),
         "Cpx(1j)": lambda: L.Cpx(1j), "MyInt(2)": lambda: L.MyInt(2), "2**70": lambda: 2 ** 70, "V()": lambda: V(),
+        # the library's own sentinels (ordinary, mortal singletons): assigning them bypasses validation by design
+        "Undefined": lambda: _sentinels()[0], "Uninitialized": lambda: _sentinels()[1], "(Undefined, 1000003)": lambda: (_sentinels()[0], 1000003),
     }
     out += sorted(extra.items())
     return out
